@@ -126,6 +126,17 @@ impl SlateGen {
 		let fee = if rng.chance(1, 4) {
 			st.hit("fee=zero");
 			FeeFields::zero()
+		} else if rng.chance(1, 12) {
+			// a fee field whose low 40 bits are zero cannot be built through the constructors, but it can be
+			// read from JSON (the field is a plain integer there), so a wallet can hold such a slate
+			let shift = 1 + rng.below(15);
+			match serde_json::from_value::<FeeFields>(serde_json::json!(shift << 40)) {
+				Ok(f) => {
+					st.hit("fee:multiple-of-2^40");
+					f
+				}
+				Err(_) => FeeFields::zero(),
+			}
 		} else {
 			let shift = *rng.pick(&[0u64, 0, 0, 1, 7, 15]);
 			let rf = 1 + rng.below(1 << 39);
